@@ -262,6 +262,17 @@ pub struct World {
     pub desync: bool,
 }
 
+/// Inscription ids as they look in production (`<64 hex digits of a transaction id>i<index>`); consecutive
+/// transactions 2k, 2k+1 share the 64-digit prefix and differ in the index only.
+pub fn insc_id(seq: u32, epoch: u32) -> String {
+    format!("{:0>64}i{}", format!("1d{:06x}e{:04x}", seq / 2, epoch), seq % 2)
+}
+
+/// the id S is deployed with in `start_with_s` (the first transaction of a history)
+pub fn s_insc() -> String {
+    insc_id(1, 0)
+}
+
 pub fn gen_hash(height: u64) -> String {
     let mut b = [0u8; 32];
     b[24..].copy_from_slice(&(height + 1).to_be_bytes());
@@ -330,7 +341,7 @@ impl World {
 
     fn new_insc(&mut self) -> (String, String) {
         self.seq += 1;
-        (format!("i{}e{}", self.seq, self.epoch), format!("0x{:0>64}", format!("77{:06x}", self.seq)))
+        (insc_id(self.seq, self.epoch), format!("0x{:0>64}", format!("77{:06x}", self.seq)))
     }
 
     /// The JSON-RPC call for a transaction at index `idx` of the block with the given params.
